@@ -5,6 +5,7 @@ use crate::gen;
 use crate::oracle::{classify, is_window, Out};
 use crate::refenc::{self, is_grease, AExt, KNOWN_EXT_TYPES, W};
 use crate::rng::Rng;
+use crate::visit::veq;
 use serde_json::json;
 use tls_parser::*;
 
@@ -104,7 +105,7 @@ fn observe(d: D, input: &[u8], exp: &TlsExtension, t: u16, data_len: usize) -> O
             Obs {
                 out,
                 variant: variant_of(e),
-                eq_expected: e == exp,
+                eq_expected: veq(e, exp),
                 is_unknown_verbatim: unk,
                 tag: TlsExtensionType::from(e).0,
                 data_by_addr: by_addr,
@@ -319,7 +320,7 @@ pub fn run(ctx: &mut Ctx) {
                         let mut first_bad = None;
                         if ok {
                             for (i, (g, e)) in v.iter().zip(exp.iter()).enumerate() {
-                                let good = g == e
+                                let good = veq(g, e)
                                     || (dn != "generic"
                                         && matches!(g, TlsExtension::Unknown(t, d) if t.0 == l[i].wire_type() && *d == &l[i].data_bytes()[..])
                                         && KNOWN_EXT_TYPES.contains(&l[i].wire_type()));
@@ -587,7 +588,7 @@ pub fn run(ctx: &mut Ctx) {
                 let r2 = parse_tls_extensions(&input);
                 ctx.eval();
                 let good = match &r2 {
-                    Ok((rem, v)) => *v == exp && is_window(rem, &input, cut_at, input.len() - cut_at),
+                    Ok((rem, v)) => veq(v, &exp) && is_window(rem, &input, cut_at, input.len() - cut_at),
                     Err(_) => false,
                 };
                 if good {
